@@ -784,6 +784,7 @@ func genFault(seed uint64, prop, tier string) *Plan {
 		if o == nil {
 			continue
 		}
+		o = maybeSynth(g, corpusIndex(), o, 0.3)
 		if g.Chance(0.75) {
 			if v := redateAny(o, pick(g, probeDates)); v != nil {
 				o = v
